@@ -823,9 +823,9 @@ func main() {
 			idx   int
 			chain int64
 		}
-		sweeps := []sw{{0, 1}, {1, 1337}, {2, 65000}}
+		sweeps := []sw{{0, 1}, {1, 1337}, {2, 65000}, {3, 0}, {4, 1 << 53}}
 		if thorough {
-			sweeps = append(sweeps, sw{3, 0}, sw{4, 1 << 53}, sw{5, 1001})
+			sweeps = append(sweeps, sw{5, 1001}, sw{6, 127}, sw{7, 1<<31 - 1}, sw{8, 65518})
 		}
 		const top = 1 << 17
 		chunk := int64(32768)
